@@ -442,6 +442,93 @@ theorem c05_active_iff {s : State} (h : Reachable s) :
     | none => exact absurd hcc hc
     | some c => exact (cur_facts hI hcc).2.2
 
+/-! ## Other threads: `parallel` (resume.h) and the thread pool as scheduling modifiers
+
+What C05 promises about them: the resolver is not preempted and its ready queue is not touched (the awaiting
+coroutine is handed to another thread instead of being queued); the hand-over happens exactly once (`c05_once`
+counts the jobs); in the other thread the coroutine runs in coroutine mode, under a queue installed for the
+activation (`c05_other_thread_job`, and `c05_active_iff`: whoever executes, `active` holds), which is drained
+before that thread is done (`c05_drain`; `Act.job` runs in this context because a thread outside every
+activation carries no executor state). `immediately<Awt>` does not compile when instantiated (its
+`perform_resume` has not the type of `awaiter::resume_fn`) and is therefore outside every program. -/
+
+/-- resolving a future awaited through `parallel(...)`, or `parallel_resume(sp)`: the caller keeps running, its
+ready queue, the dequeue log and the resume log are unchanged; the handles go to a new thread -/
+theorem c05_handoff_no_preempt (s : State) (d : Nat) (cs : List Nat) (rev : Bool) :
+    ((step s (Act.wakePar d)).cur = s.cur ∧ (step s (Act.wakePar d)).ready = s.ready
+      ∧ (step s (Act.wakePar d)).deq = s.deq ∧ (step s (Act.wakePar d)).runs = s.runs
+      ∧ (s.st d = St.pparked → (step s (Act.wakePar d)).jobs = s.jobs ++ [([d], false)]))
+    ∧ ((step s (Act.wake cs Mode.par rev)).cur = s.cur ∧ (step s (Act.wake cs Mode.par rev)).ready = s.ready
+      ∧ (step s (Act.wake cs Mode.par rev)).deq = s.deq ∧ (step s (Act.wake cs Mode.par rev)).runs = s.runs
+      ∧ (handles s.st cs rev ≠ [] →
+          (step s (Act.wake cs Mode.par rev)).jobs = s.jobs ++ [(handles s.st cs rev, false)])) := by
+  constructor
+  · cases hc : s.cur with
+    | none =>
+      simp only [step, hc, mainStep, wakePar]
+      split <;> simp_all
+    | some c =>
+      simp only [step, hc, coStep, wakePar]
+      split <;> simp_all
+  · cases hc : s.cur with
+    | none =>
+      simp only [step, hc, mainStep, postJob]
+      split <;> simp_all
+    | some c =>
+      simp only [step, hc, coStep, postJob]
+      split <;> simp_all
+
+/-- `co_await pool`: the coroutine's handle goes to the pool, once, behind the jobs posted before -/
+theorem c05_hop (s : State) (c : Nat) (hc : s.cur = some c) :
+    (step s Act.hop).jobs = s.jobs ++ [([c], true)] := by
+  simp only [step, hc, coStep, coHop, settle]
+  split
+  · rfl
+  · split
+    · rfl
+    · rfl
+    · rfl
+    · split <;> rfl
+
+/-- **A coroutine resumed in another thread runs in coroutine mode**: a pool worker / a `parallel` thread that
+takes a job installs the queue for the activation (`coro_queue::resume`), resumes the first handle under it and
+keeps the others for its `suspend_now` loop. -/
+theorem c05_other_thread_job (s : State) (h : Nat) (hs : List Nat) (k : Bool) (js : List (List Nat × Bool))
+    (hc : s.cur = none) (ha : s.active = false) (hb : s.blocks = []) (hcl : s.calls = [])
+    (hj : s.jobs = (h :: hs, k) :: js) :
+    (step s Act.job).active = true ∧ (step s Act.job).cur = some h
+    ∧ (step s Act.job).base = some (Base.loop hs false) ∧ (step s Act.job).jobs = js
+    ∧ (step s Act.job).ready = s.ready ∧ (step s Act.job).worker = k := by
+  simp [step, hc, mainStep, mainJob, ha, hb, hj, settle, hcl]
+
+/-- `coro_queue::can_block()`: outside every activation blocking starves nobody; in general it is refused
+exactly when the thread is in coroutine mode with something queued -/
+theorem c05_can_block {s : State} (h : Reachable s) :
+    (s.cur = none → s.blocks = [] → canBlock s = true)
+    ∧ (canBlock s = false ↔ (s.active = true ∧ s.ready ≠ [])) := by
+  constructor
+  · intro hc hb
+    have := c05_drain h hc hb
+    simp [canBlock, this.1]
+  · simp [canBlock]
+
+/-- The pinned (unrepaired) `parallel`: the awaiting coroutine 0 was resumed in its new thread by a bare
+`h.resume()`, i.e. outside coroutine mode; when it then detaches coroutine 1 and drops the suspend point, 1 runs
+at once while 0 has neither suspended nor finished (replayed on the headers in corpus/c05_sched.txt; repaired by
+the `fix:` commit, after which 0 keeps running and 1 waits in the ready queue). -/
+theorem c05_asis_violation :
+    (runAsIs init [Act.start 0 true, Act.parkPar, Act.wakePar 0, Act.job]).cur = some 0
+    ∧ (runAsIs init [Act.start 0 true, Act.parkPar, Act.wakePar 0, Act.job]).active = false
+    ∧ (runAsIs init [Act.start 0 true, Act.parkPar, Act.wakePar 0, Act.job,
+                     Act.wake [1] Mode.discard false]).cur = some 1
+    ∧ (runAsIs init [Act.start 0 true, Act.parkPar, Act.wakePar 0, Act.job,
+                     Act.wake [1] Mode.discard false]).st 0 = St.stacked
+    ∧ (run init [Act.start 0 true, Act.parkPar, Act.wakePar 0, Act.job]).active = true
+    ∧ (run init [Act.start 0 true, Act.parkPar, Act.wakePar 0, Act.job,
+                 Act.wake [1] Mode.discard false]).cur = some 0
+    ∧ (run init [Act.start 0 true, Act.parkPar, Act.wakePar 0, Act.job,
+                 Act.wake [1] Mode.discard false]).ready = [1] := by decide
+
 /-! ## Non-vacuity: the hypotheses are met by real runs
 
 Program: ordinary code starts coroutine 0; 0 detaches 1 and 2 (suspend points dropped), pauses; 1 pauses;
@@ -482,5 +569,20 @@ example :
     ∧ (run init [Act.start 0 true, Act.wake [2] Mode.discard false, Act.start 1 true, Act.park]).ready = [2]
     ∧ (run init [Act.enter, Act.wake [0] Mode.discard false, Act.start 1 true]).base = some Base.callMain
     ∧ (run init [Act.enter, Act.wake [0] Mode.discard false, Act.start 1 true, Act.park]).ready = [0] := by decide
+
+/-- the new steps are used by reachable states: pool hop and `hopCur` on the worker, `parallel_resume`, a
+coroutine entered through `initial_awaiter` (`start _ false`) -/
+example :
+    (run init [Act.start 0 true, Act.hop]).jobs = [([0], true)]
+    ∧ (run init [Act.start 0 true, Act.hop, Act.job]).cur = some 0
+    ∧ (run init [Act.start 0 true, Act.hop, Act.job]).worker = true
+    ∧ (run init [Act.start 0 true, Act.hop, Act.job, Act.hopCur]).jobs = [([0], true)]
+    ∧ (run init [Act.start 0 true, Act.hop, Act.job, Act.hopCur]).cur = none
+    ∧ (run init [Act.start 0 true, Act.hopCur]).cur = some 0
+    ∧ (run init [Act.wake [1, 2] Mode.par false]).jobs = [([1, 2], false)]
+    ∧ (run init [Act.wake [1, 2] Mode.par false, Act.job]).cur = some 1
+    ∧ (run init [Act.wake [1, 2] Mode.par false, Act.job]).base = some (Base.loop [2] false)
+    ∧ (run init [Act.start 0 false, Act.start 1 false, Act.fin]).cur = some 0
+    ∧ (run init [Act.start 0 false, Act.start 1 false]).starter 1 = none := by decide
 
 end Cocls.Exec
